@@ -65,11 +65,13 @@ class P:
                 vs.append((v, self.type()))
                 if not self.eat(','): break
             trig = []
-            if self.eat('{'):
+            while self.eat('{'):
+                grp = []
                 while True:
-                    trig.append(self.expr())
+                    grp.append(self.expr())
                     if not self.eat(','): break
                 self.expect('}')
+                trig.append(grp)
             self.expect('::')
             return ('quant', kind, vs, trig, self.expr())
         return self.impl()
@@ -112,6 +114,7 @@ class P:
         return a
 
     def unary(self):
+        if self.isid('forall') or self.isid('exists'): return self.expr()
         if self.eat('!'): return ('un', '!', self.unary())
         if self.eat('-'): return ('un', '-', self.unary())
         if self.eat('*'): return ('un', '*', self.unary())
@@ -164,6 +167,52 @@ def parse_expr(s):
     return e
 
 
+def parse_ghost_stmts(text):
+    out = []
+    for s in split_top(text, ';'):
+        s = s.strip()
+        if not s: continue
+        m = re.match(r'forall\s+(\w+)\s+(\S+)\s*::\s*(.*)$', s, re.S)
+        if m:
+            lhs, rhs = split_assign(m.group(3))
+            out.append(('forall', m.group(1), m.group(2), parse_expr(lhs), parse_expr(rhs)))
+            continue
+        if s.startswith('assert '):
+            out.append(('assert', parse_expr(s[7:]), s[7:])); continue
+        if s.startswith('assume '):
+            out.append(('assume', parse_expr(s[7:]), s[7:])); continue
+        if s.startswith('if '):
+            m = re.match(r'if\s+(.*?)\s+then\s+(.*)$', s, re.S)
+            out.append(('if', parse_expr(m.group(1)), parse_ghost_stmts(m.group(2).replace(' also ', ';')))); continue
+        if '=' in strip_cmp(s):
+            lhs, rhs = split_assign(s)
+            out.append(('assign', parse_expr(lhs), parse_expr(rhs)))
+        else:
+            out.append(('call', parse_expr(s)))
+    return out
+
+
+def strip_cmp(s):
+    return s.replace('==', '').replace('!=', '').replace('<=', '').replace('>=', '').replace('==>', '')
+
+
+def split_assign(s):
+    depth = 0
+    i = 0
+    while i < len(s):
+        ch = s[i]
+        if ch in '([{': depth += 1
+        elif ch in ')]}': depth -= 1
+        elif ch == '=' and depth == 0:
+            prev = s[i - 1] if i else ''
+            nxt = s[i + 1] if i + 1 < len(s) else ''
+            if prev not in '=!<>' and nxt != '=':
+                return s[:i].strip(), s[i + 1:].strip()
+            if nxt == '=': i += 1
+        i += 1
+    raise ParseError('no assignment in %r' % s)
+
+
 def split_top(s, sep=','):
     out = []; depth = 0; cur = ''
     for ch in s:
@@ -175,7 +224,7 @@ def split_top(s, sep=','):
     return out
 
 
-CLAUSES = ('requires', 'ensures', 'modifies', 'loop', 'property', 'assume', 'trusted', 'inline', 'panics', 'note', 'spawns', 'onpanic', 'decreases', 'ghost', 'reads', 'unroll', 'atexit', 'prestate', 'nosafety', 'lemma')
+CLAUSES = ('params', 'results', 'takes', 'maypanic', 'requires', 'ensures', 'modifies', 'loop', 'property', 'assume', 'trusted', 'inline', 'panics', 'note', 'spawns', 'onpanic', 'decreases', 'ghost', 'reads', 'unroll', 'atexit', 'prestate', 'nosafety', 'lemma')
 
 
 class FuncContract:
@@ -203,6 +252,7 @@ class Contracts:
         self.ghostfields = {} # 'T.f' -> type
         self.ghostglobals = {}
         self.ghostmaps = {}
+        self.ghostprocs = {}
         self.pures = {}       # name -> (params [(n,t)], rettype, ast, text)
         self.lockwords = []
         self.couples = []
@@ -223,6 +273,15 @@ class Contracts:
             m = re.match(r'map\s+(\w+)\s+(\S+)', body)
             if m: self.ghostmaps[m.group(1)] = m.group(2); return
             raise ParseError('%s: bad ghost decl %r' % (src, body))
+        if kw == 'ghostproc':
+            body = ' '.join([rest] + [l.strip() for l in lines[1:]])
+            m = re.match(r'(\w+)\s*\(([^)]*)\)\s*=\s*(.*)$', body, re.S)
+            if not m: raise ParseError('%s: bad ghostproc decl %r' % (src, body))
+            ps = []
+            for p in split_top(m.group(2)):
+                n, t = p.split(None, 1); ps.append((n, t.strip()))
+            self.ghostprocs[m.group(1)] = (ps, parse_ghost_stmts(m.group(3)))
+            return
         if kw in ('pure', 'pred'):
             body = ' '.join([rest] + [l.strip() for l in lines[1:]])
             m = re.match(r'(\w+)\s*\(([^)]*)\)\s*(\S*)\s*=\s*(.*)$', body, re.S)
@@ -263,7 +322,9 @@ class Contracts:
                     elif w == 'trusted': fc.trusted = True; fc.notes.append('trusted: ' + r)
                     elif w == 'inline': fc.inline = True
                     elif w == 'note': fc.notes.append(r)
-                    elif w == 'ghost': fc.ghost.append(r)
+                    elif w == 'ghost':
+                        ev, _, body = r.partition(':')
+                        fc.ghost.append((' '.join(ev.split()), parse_ghost_stmts(body), r))
                     elif w == 'loop':
                         m = re.match(r'(\d+)\s+(\w+)\s*(.*)$', r, re.S)
                         if not m: raise ParseError('bad loop clause %r' % c)
@@ -314,3 +375,23 @@ def load_contracts(repo='/repo', extra_files=()):
                     decl.append(body)
         if decl: cs.add_decl(decl, '%s:%d' % (os.path.basename(fn), start))
     return cs
+
+
+def show(a):
+    """unparse an expression AST (for obligation texts)"""
+    if a is None: return ''
+    k = a[0]
+    if k == 'num': return a[1]
+    if k == 'bool': return 'true' if a[1] else 'false'
+    if k == 'nil': return 'nil'
+    if k == 'str': return '"%s"' % a[1]
+    if k == 'id': return a[1]
+    if k == 'field': return '%s.%s' % (show(a[1]), a[2])
+    if k == 'comp': return '%s#%s' % (show(a[1]), a[2])
+    if k == 'index': return '%s[%s]' % (show(a[1]), show(a[2]))
+    if k == 'slice': return '%s[%s:%s]' % (show(a[1]), show(a[2]), show(a[3]))
+    if k == 'un': return '%s%s' % (a[1], show(a[2]))
+    if k == 'bin': return '(%s %s %s)' % (show(a[2]), a[1], show(a[3]))
+    if k == 'call': return '%s(%s)' % (show(a[1]), ', '.join(show(x) for x in a[2]))
+    if k == 'quant': return '%s %s :: %s' % (a[1], ', '.join('%s %s' % (n, t) for n, t in a[2]), show(a[4]))
+    return str(a)
